@@ -14,6 +14,7 @@ UNIT_CONFIGS = {
     'retain': [('', ('std',))],
     'registry_impls': [('', ('std',))],
     'codec': [('', ('std',))],
+    'serde': [('', ('std', 'serde'))],
     'build': [('-docs', ('std', 'docs')), ('-nodocs', ('std',))],
     'metatype': [('', ('std',))],
     'alias': [('', ('std',))],
